@@ -1,5 +1,6 @@
 (* C01 — generic facts about AbsDest.apply_all (any change list): framing (a change at p only
-   touches paths at or below p), the entry a change leaves at its own path, and two
+   touches paths at or below p), the entry a change leaves at its own path (a hard link: the
+   metadata of the inode it joins, AbsDest.link_stat), and two
    invariants of the inode classes:
      ino_lt      every class in the map is below the counter,
      nonlink_inj two different paths whose stats are not hard links never share a class.
@@ -101,12 +102,14 @@ Qed.
 (* ---- what one change leaves at its own path ---- *)
 Lemma apply_map_at D n k p st D' n' :
   k <> KDelete -> apply_map src D n (k, p, Some st) = Some (D', n') ->
-  exists e, alookup p D' = Some e /\ de_stat e = st /\
+  exists e, alookup p D' = Some e /\ (is_hardlink st = false -> de_stat e = st) /\
     ((st_is_dir st = true /\ n' = n /\
       exists o, alookup p D = Some o /\ st_is_dir (de_stat o) = true /\ de_ino e = de_ino o /\ de_bytes e = de_bytes o)
      \/ (is_hardlink st = true /\ n' = n /\
          exists t, alookup (st_linkname st) D = Some t /\ st_is_dir (de_stat t) = false /\
-                   de_ino e = de_ino t /\ de_bytes e = de_bytes t)
+                   de_ino e = de_ino t /\ de_bytes e = de_bytes t /\
+                   (* a new name shows the metadata of the inode it joins, not the stat as sent *)
+                   de_stat e = link_stat (de_stat t) st)
      \/ (is_hardlink st = false /\ n' = n + 1 /\ de_ino e = n /\
          de_bytes e = (if wants_content st then src p else []) /\
          (st_is_dir st = true -> forall o, alookup p D = Some o -> st_is_dir (de_stat o) = false))).
@@ -123,7 +126,7 @@ Proof.
           if is_hardlink st then
             match alookup (st_linkname st) D with
             | Some t => if st_is_dir (de_stat t) then None
-                        else Some (aset p {| de_stat := st; de_bytes := de_bytes t; de_ino := de_ino t |} D1, n)
+                        else Some (aset p {| de_stat := link_stat (de_stat t) st; de_bytes := de_bytes t; de_ino := de_ino t |} D1, n)
             | None => None
             end
           else Some (aset p {| de_stat := st; de_bytes := if wants_content st then src p else [];
@@ -132,7 +135,7 @@ Proof.
           if is_hardlink st then
             match alookup (st_linkname st) D with
             | Some t => if st_is_dir (de_stat t) then None
-                        else Some (aset p {| de_stat := st; de_bytes := de_bytes t; de_ino := de_ino t |} D, n)
+                        else Some (aset p {| de_stat := link_stat (de_stat t) st; de_bytes := de_bytes t; de_ino := de_ino t |} D, n)
             | None => None
             end
           else Some (aset p {| de_stat := st; de_bytes := if wants_content st then src p else [];
@@ -150,7 +153,7 @@ Proof.
     + cbv zeta in Hbody. destruct (is_hardlink st) eqn:Eh.
       * destruct (alookup (st_linkname st) D) as [t|] eqn:Et; [|discriminate].
         destruct (st_is_dir (de_stat t)) eqn:Etd; [discriminate|]. inversion Hbody; subst.
-        eexists. split; [apply alookup_aset_same|]. split; [reflexivity|]. right; left.
+        eexists. split; [apply alookup_aset_same|]. split; [discriminate|]. right; left.
         split; auto. split; auto. exists t. simpl. auto.
       * inversion Hbody; subst.
         eexists. split; [apply alookup_aset_same|]. split; [reflexivity|]. right; right.
@@ -159,7 +162,7 @@ Proof.
   - destruct (is_hardlink st) eqn:Eh.
     + destruct (alookup (st_linkname st) D) as [t|] eqn:Et; [|discriminate].
       destruct (st_is_dir (de_stat t)) eqn:Etd; [discriminate|]. inversion Hbody; subst.
-      eexists. split; [apply alookup_aset_same|]. split; [reflexivity|]. right; left.
+      eexists. split; [apply alookup_aset_same|]. split; [discriminate|]. right; left.
       split; auto. split; auto. exists t. simpl. auto.
     + inversion Hbody; subst.
       eexists. split; [apply alookup_aset_same|]. split; [reflexivity|]. right; right.
@@ -257,11 +260,11 @@ Proof.
     destruct c as [[k p] o]; unfold ch_path in *; simpl fst in *; simpl snd in *.
     destruct (kdel_dec k) as [->|Hk]; [rewrite (apply_map_gone _ _ _ _ _ _ E) in Hz; discriminate|].
     destruct o as [st|]; [|apply apply_map_none_stat in E; congruence].
-    destruct (apply_map_at _ _ _ _ _ _ _ Hk E) as (e0 & He0 & Es & [(_ & _ & o & Ho & Hod & Ei & _)|[(Hh & _)|(_ & _ & Ei & _)]]);
+    destruct (apply_map_at _ _ _ _ _ _ _ Hk E) as (e0 & He0 & Es & [(_ & _ & o & Ho & Hod & Ei & _)|[(Hh & _ & t & _ & _ & _ & _ & Est)|(_ & _ & Ei & _)]]);
       rewrite Hz in He0; inversion He0; subst e0.
     - rewrite Ei. apply (Hi p w o e'); auto.
       unfold is_hardlink, AbsDest.is_reg. rewrite Hod. reflexivity.
-    - rewrite Es in Lz. congruence.
+    - rewrite Est, (link_stat_is_hardlink _ _ Hh) in Lz. congruence.
     - rewrite Ei. specialize (Hl _ _ Hw'). lia. }
   destruct (apply_map_old _ _ _ _ _ _ _ E H1) as [Ex|O1], (apply_map_old _ _ _ _ _ _ _ E H2) as [Ey|O2].
   - congruence.
@@ -294,10 +297,10 @@ Qed.
 Lemma changed_final cs D n R nR dn k p st :
   StronglySorted clt cs -> apply_all src cs D n = (R, nR, dn, false) -> In (k, p, Some st) cs ->
   k <> KDelete ->
-  exists e, alookup p R = Some e /\ de_stat e = st /\
+  exists e, alookup p R = Some e /\ (is_hardlink st = false -> de_stat e = st) /\
     (is_hardlink st = true -> compare_path (st_linkname st) p = Lt ->
        exists t, alookup (st_linkname st) R = Some t /\ st_is_dir (de_stat t) = false /\
-                 de_ino e = de_ino t /\ de_bytes e = de_bytes t) /\
+                 de_ino e = de_ino t /\ de_bytes e = de_bytes t /\ de_stat e = link_stat (de_stat t) st) /\
     (is_hardlink st = false -> st_is_dir st = false ->
        de_bytes e = (if wants_content st then src p else [])).
 Proof.
@@ -310,7 +313,7 @@ Proof.
     eapply compare_path_trans; eauto. }
   destruct (apply_map_at _ _ _ _ _ _ _ Hk Ea) as (e & He & Es & Hc).
   exists e. rewrite (Hfr p (or_introl eq_refl)). split; auto. split; auto. split.
-  - intros Hh Hlt. destruct Hc as [(Hd & _)|[(_ & _ & t & Ht & Htd & Ei & Eb)|(Hn & _)]].
+  - intros Hh Hlt. destruct Hc as [(Hd & _)|[(_ & _ & t & Ht & Htd & Ei & Eb & Est)|(Hn & _)]].
     + unfold is_hardlink, AbsDest.is_reg in Hh. rewrite Hd in Hh. discriminate.
     + exists t. rewrite (Hfr _ (or_intror Hlt)).
       rewrite (apply_map_frame _ _ _ _ _ (st_linkname st) Ea); auto.
